@@ -295,8 +295,8 @@ func checkC19(c *Ctx) {
 			t1, t2 := texts[r.Intn(len(texts))], texts[r.Intn(len(texts))]
 			txt := &specs.Spec{Version: "0.6.0", Kind: "text.org/dev", Annotations: map[string]string{"text": t1},
 				Devices: []specs.Device{{Name: "t", Annotations: map[string]string{"note": t2}, ContainerEdits: specs.ContainerEdits{
-					Env:    []string{"TEXT=" + t1, "NOTE=" + t2},
-					Hooks:  []*specs.Hook{{HookName: "prestart", Path: "/bin/h", Args: []string{"h", t2}, Env: []string{"T=" + t1}}},
+					Env:    []string{"TEXT=" + t1, "NOTE=" + t2, "PCT=90% %s %d %v %%", "BRACES={{.}} ${X} \\n"},
+					Hooks:  []*specs.Hook{{HookName: "prestart", Path: "/bin/h", Args: []string{"h", t2, "--limit=100%"}, Env: []string{"T=" + t1}}},
 					Mounts: []*specs.Mount{{HostPath: "/h", ContainerPath: "/c", Options: []string{"ro", t1}}}}}}}
 			for i, d := range p.Phys {
 				if p.Exists[i] {
@@ -568,6 +568,11 @@ func checkC19(c *Ctx) {
 					var data []byte
 					if strings.HasSuffix(ociFile, ".json") {
 						data, _ = json.Marshal(ociSpec)
+					} else if chance(r, 35) {
+						// YAML in flow style: begins with a brace like JSON does, and is not JSON
+						data, _ = json.Marshal(ociSpec)
+						data = append([]byte("{ociVersion: "), bytes.TrimPrefix(data, []byte(`{"ociVersion":`))...)
+						c.Count("inject_oci_specs_in_flow_style_yaml", 1)
 					} else {
 						data, _ = yaml.Marshal(ociSpec)
 					}
